@@ -573,6 +573,14 @@ def make_strategy_classes():
                             w.safe(pre, w, self, market, act, order)
                         cl = w.clients[act[2]] if act[2] < len(w.clients) else None
                         out = market.place_order(order, client=cl) if cl is not None else "noorder"
+                elif k == "PX":  # ["PX", i]: the strategy hands an order it has ALREADY placed to place_order again
+                    order = self.order_at(act[1])
+                    if order is None or order.id not in market.blotter:
+                        out = "noorder"
+                    else:
+                        if pre:
+                            w.safe(pre, w, self, market, act, order)
+                        out = target.place_order(order)
                 elif k == "NOP":
                     out = "nop"
                 elif k == "W":
